@@ -1423,13 +1423,14 @@ package ucfg
 //@ axiom [tconfig] rtKind(tConfigPtr) == 22
 //@ axiom [tconfig] forall a reflect.Type :: forall b reflect.Type :: rtKind(a) == 22 && rtKind(b) == 22 ==> convTo(a, b) == convTo(b, a)
 //@ func reifyValue :: opts, t, val -> r, err
-//@ props C06 C07
+//@ props C06 C07 C04
 //@ sweep
 //@ uses chase tconfig
 //@ at-call (Value).Convert requires convTo(rvType(v), t)
 //@ requires t != nil
 //@ modifies tree(opts.opts)
 //@ ensures [scope !unproved] opts.opts.activeFields == old(opts.opts.activeFields)
+//@ ensures [interface_validated @C04] err == nil && t == chasedT(t) && rtKind(t) == 20 && rtNumMethod(t) == 0 ==> accepts(opts.validators, rvAny(r))
 //@ ensures [container_typed @C06] err == nil && !convTo(old(tConfigPtr), ptrTo(chasedT(t))) && (rtKind(chasedT(t)) == 21 || rtKind(chasedT(t)) == 23) ==> rvType(r) == t
 
 // reifyMergeValue: the scope clause is the summary reifyMap relies on (assumed: the function is a reflect-driven
